@@ -58,7 +58,7 @@ def gen_case(rng, feats):
 
     def variants():
         """one plan-variant pair"""
-        k = rng.choice(["idx-a", "idx-a", "idx-u", "analyze", "join-order", "join-filter", "idx-range"])
+        k = rng.choice(["idx-a", "idx-a", "idx-u", "analyze", "join-order", "join-filter", "idx-range", "outer-filter"])
         items1 = [("expr", col(0)), ("expr", col(1)), ("expr", col(2))]
         if k in ("idx-a", "idx-u", "idx-range"):
             c = 0 if k != "idx-u" else 2
@@ -89,6 +89,18 @@ def gen_case(rng, feats):
             h.simple("A", "AAnalyze")
             i2 = len(h.rust); h.x(q.sql(), q.coq(), sorted_=True)
             h.simple("E", "AFlush", q.sql())
+            pairs.append((i1, i2, k))
+        elif k == "outer-filter":
+            # LEFT JOIN with a WHERE conjunct on each input: a filter on the null-supplying side (or the anti-join idiom
+            # x IS NULL) must stay above the join whatever is pushed below it; the two variants differ in conjunct order
+            itemsA = [("expr", col(0)), ("expr", col(1)), ("expr", col(5))]
+            onA = cmp_("=", col(0), col(4))
+            lp = cmp_(rng.choice(["<", ">=", "="]), col(1), lit(rng.randrange(-3, 12)))
+            rp = ("isnull", col(4), False) if rng.random() < 0.4 else cmp_(rng.choice(["=", "<", ">="]), col(5), lit(rng.randrange(0, 9)))
+            qa = G.Select(itemsA, ("join", "left", t1, t2, onA), where=and_(lp, rp))
+            qb = G.Select(itemsA, ("join", "left", t1, t2, onA), where=and_(rp, lp))
+            i1 = len(h.rust); h.x(qa.sql(), qa.coq(), sorted_=True)
+            i2 = len(h.rust); h.x(qb.sql(), qb.coq(), sorted_=True)
             pairs.append((i1, i2, k))
         else:
             # t1 JOIN t2 ON a = x   vs   t2 JOIN t1 ON x = a   (same output columns)
